@@ -377,9 +377,13 @@ def gen_config(rng, fault_class=None):
     faults_on = (rng.random() < 0.5) if fault_class is None else bool(fault_class)
     fault_kinds = [k for k in FAULT_KINDS if rng.random() < 0.7] or [rng.choice(FAULT_KINDS)]
     rewrites = [w for w in REWRITES if rng.random() < 0.75] or ["flip"]
-    marathon = rng.random() < 0.02
+    roll = rng.random()
+    marathon = roll < 0.01
+    saturation = 0.01 <= roll < 0.025
     cfg = {
         "marathon": marathon,
+        "saturation": saturation,
+        "max_probes": 160 if saturation else 40,
         "flavour": flavour,
         "kind_weights": kind_weights,
         "bases": bases,
@@ -557,11 +561,100 @@ class _new(int):
     """An operand id that is already in the new numbering (emit must not translate it)."""
 
 
+def saturation_universe(rng, cfg):
+    """A tiny closed universe of atoms: every operator x spelling x literal side over one or two
+    version bases of one or two variables (or the values of one string variable / extra)."""
+    kind = rng.choice(["pv", "pfv", "pv_pfv", "string", "extra", "release"])
+    atoms = []
+    if kind in ("pv", "pfv", "pv_pfv"):
+        names = {"pv": ["python_version"], "pfv": ["python_full_version"], "pv_pfv": list(VERSION_VARS)}[kind]
+        base = rng.choice(VERSION_BASES)
+        bases = [base] if rng.random() < 0.6 else [base, (base[0], base[1] + 1)]
+        for name in names:
+            for b in bases:
+                spellings = {f"{b[0]}.{b[1]}", f"{b[0]}.{b[1]}.0"}
+                if b[1] == 0:
+                    spellings.add(f"{b[0]}")
+                if name == "python_full_version":
+                    spellings.add(f"{b[0]}.{b[1]}.{rng.choice([1, 2, 5])}")
+                for v in sorted(spellings):
+                    for op in ORDER_OPS:
+                        if op == "~=" and "." not in v:
+                            continue
+                        atoms.append(atom(name, op, v, False))
+                        atoms.append(atom(name, op, v, True))
+                atoms.append(atom(name, "==", f"{b[0]}.{b[1]}.*"))
+                atoms.append(atom(name, "!=", f"{b[0]}.{b[1]}.*"))
+    elif kind == "release":
+        for v in RELEASE_VALUES[:5]:
+            for op in [">=", "<", "==", "!=", ">", "<="]:
+                atoms.append(atom("platform_release", op, v, False))
+    elif kind == "string":
+        name = rng.choice(sorted(STRING_VARS))
+        pool = STRING_VARS[name]
+        for v in pool:
+            for op in ("==", "!="):
+                atoms.append(atom(name, op, v, False))
+                atoms.append(atom(name, op, v, True))
+        for op in ("in", "not in"):
+            atoms.append(atom(name, op, " ".join(pool[:2])))
+            atoms.append(atom(name, op, " ".join(reversed(pool[:2]))))
+            atoms.append(atom(name, op, pool[0][:3], True))
+    else:
+        for v in EXTRA_VALUES:
+            for op in ("==", "!="):
+                atoms.append(atom("extra", op, v, False))
+                atoms.append(atom("extra", op, v, True))
+    if len(atoms) > 36:
+        atoms = rng.sample(atoms, 36)
+    return atoms
+
+
+def gen_saturation_script(rng, cfg, atoms, n_ops):
+    """Pairwise saturation: many (a op b) over the closed universe, in random order, with round trips."""
+    ops = []
+    where = {}
+
+    def slot(i):
+        if i not in where:
+            where[i] = len(ops)
+            ops.append(["parse", atoms[i]])
+        return where[i]
+
+    results = []
+    for _ in range(n_ops):
+        i, j = rng.randrange(len(atoms)), rng.randrange(len(atoms))
+        roll = rng.random()
+        if results and roll < 0.2:
+            a, b = rng.choice(results), slot(j)  # chain on an earlier result
+        else:
+            a, b = slot(i), slot(j)
+        ops.append([rng.choice(["and", "or"]), a, b])
+        results.append(len(ops) - 1)
+        if rng.random() < 0.12:
+            ops.append(["reparse", results[-1]])
+            results.append(len(ops) - 1)
+    return ops
+
+
 def gen_scripts(rng, fault_class=None):
     """The schedule-independent part of a program: swarm configuration, client scripts, rendered texts."""
     cfg = gen_config(rng, fault_class)
     scripts = []
     roles = []
+    if cfg.get("saturation"):
+        atoms = saturation_universe(rng, cfg)
+        cfg["universe"] = len(atoms)
+        cfg["fault_rate"] = cfg["fault_rate"] / 4
+        n_ops = rng.choice([60, 100, 150])
+        for _ in range(2):
+            scripts.append(gen_saturation_script(rng, cfg, atoms, n_ops))
+            roles.append("victim")
+        for c, script in enumerate(scripts):
+            for op in script:
+                if op[0] == "parse":
+                    op.append(render(op[1], cfg["style"] if c == 0 else {"q": "'", "sp": False, "par": False}))
+        return {"config": cfg, "roles": roles, "scripts": scripts}
     victims = [gen_script(rng, cfg) for _ in range(cfg["n_victims"])]
     for v in victims:
         scripts.append(v)
